@@ -14,7 +14,7 @@ PROP = 'C19'
 ENGINE = 'thread'
 LEVEL = 'exploration'
 INVARIANTS = ('call_applied_twice', 'failed_call_applied', 'callback_twice', 'sync_wrong_result', 'sync_bad_exception', 'caller_blocked',
-              'success_not_applied', 'deadlock', 'thread_exception', 'replicas_differ')
+              'success_not_applied', 'deadlock', 'thread_exception', 'replicas_differ', 'callback_missing')
 for _i in INVARIANTS:
     INV_PROP[_i] = PROP
 RULE = ('one case = one seeded execution on the thread engine: 1-3 nodes with their REAL auto-tick threads, a network pump, and '
@@ -174,6 +174,24 @@ def execute(seed, cfg):
             cis = [x.raftCommitIndex for x in nodes]
             if len(set(tops)) == 1 and tops[0] == max(cis) and all(len(priv(priv(x, 'SyncObj', 'commandsQueue'), 'FastQueue', 'queue')) == 0 for x in nodes):
                 break
+        # callbacks of entries that a deposed leader had appended and that were cut off again fire (DISCARDED) when the log
+        # reaches their index once more: a few more commands through the present leader flush them
+        for _ in range(min(40, len(calls) + 5)):
+            lead = [x for x in nodes if x._isLeader()]
+            if not lead:
+                sched.yield_(wake_at=sched.now + 0.5)
+                continue
+            tagc[0] += 1
+            try:
+                lead[0].append(1000000 + tagc[0], sync=True, timeout=5.0)
+            except Exception:
+                pass
+        for _ in range(40):
+            sched.yield_(wake_at=sched.now + 0.25)
+            tops = [x.raftLastApplied for x in nodes]
+            cis = [x.raftCommitIndex for x in nodes]
+            if len(set(tops)) == 1 and tops[0] == max(cis) and all(len(priv(priv(x, 'SyncObj', 'commandsQueue'), 'FastQueue', 'queue')) == 0 for x in nodes):
+                break
         rec_main['final'] = snapshot()
         for x in nodes:
             x.destroy()
@@ -241,6 +259,11 @@ def execute(seed, cfg):
             executed = any(h == rec['node'] or True for (h, t) in per if t == tag) and any(t == tag for (h, t) in per)
             if len(rec['cbs']) > 1:
                 flag('callback_twice', 'the callback of call %d fired %d times: %r' % (tag, len(rec['cbs']), rec['cbs']))
+            if rec['mode'] == 'cb' and not rec['cbs'] and out == ('sent',) and status != 'steps' and not rec_main.get('callers_alive'):
+                # the run reached quiescence on a network that loses nothing (partitions of the disturber only delay):
+                # every asynchronous call has been applied or reported failed by now, and its callback fired once
+                flag('callback_missing', 'the callback of asynchronous call %d (made on node %d, %s) never fired although the cluster reached quiescence' % (
+                    tag, rec['node'], 'committed at %d' % tagpos[tag] if tag in tagpos else 'not committed'))
             for res, err in rec['cbs']:
                 if err == FR.SUCCESS:
                     nsucc += 1
